@@ -69,7 +69,7 @@ def path_trace(ctx, res):
 def xml_trace(ctx, res, ops):
     """code -> spec for the XML codecs: sessions of setter calls and codec calls on random documents (up to ~40 elements),
     recorded from the real package and validated against the integrated specification (Trace_Xml.tla)"""
-    ctx.trace(res, "xml", "Trace_Xml.tla", "Trace_Xml.cfg", n=3000 if ctx.quick else 40000, timeout_s=300 if ctx.quick else 1800, extra_args=["-ops", ops])
+    ctx.trace(res, "xml", "Trace_Xml.tla", "Trace_Xml.cfg", n=3000 if ctx.quick else 24000, timeout_s=600, extra_args=["-ops", ops], chunk=4000)
 
 
 def c13(ctx, res):
@@ -146,6 +146,8 @@ def c04(ctx, res):
     t = "quick" if ctx.quick else "thorough"
     for fam in ("order", "attrs", "extras"):
         ctx.gen_replay(res, "seq", "MC_C04.tla", "MC_C04_%s_%s.cfg" % (fam, t), procs=8)
+    if not ctx.quick:
+        ctx.gen_replay(res, "seq", "MC_C04.tla", "MC_C04_attrs_quick.cfg", procs=8)     # one element, up to three attributes
     xml_trace(ctx, res, "seq")
     res.assumptions += ["documents start with the root element (a leading declaration or comment is the documented NoRoot result, covered by C15)",
                         "domain: text first in its element, at most one comment / directive / processing instruction per element",
